@@ -69,6 +69,8 @@ type v3Proc struct {
 	res        string // appender: result of the last Append
 	busy       bool   // an API call of this process is in flight
 	h          int64  // readers: the HW the goroutine loaded before it reached reader.before_resync
+	gid        int64  // goroutine id of the process' goroutine
+	lostSeen   int    // consecutive observations "asleep in waitForHW, not a registered waiter"
 }
 
 type v3Ctl struct {
@@ -112,6 +114,7 @@ func (c *v3Ctl) register(p *v3Proc) {
 	gid := v3Goid()
 	c.mu.Lock()
 	c.byGid[gid] = p
+	p.gid = gid
 	c.mu.Unlock()
 }
 
@@ -168,11 +171,61 @@ func (c *v3Ctl) registered(p *v3Proc) bool {
 	return ok
 }
 
+// v3Asleep reports whether goroutine gid is parked (status "select": no case
+// was ready when it got there, it is not runnable) in the select statement of
+// committedReader.waitForHW.  This is the scheduler's state of the goroutine,
+// read from the goroutine dump - not a time-out.
+func v3Asleep(gid int64) bool {
+	if gid <= 0 {
+		return false
+	}
+	buf := make([]byte, 1<<16)
+	for {
+		n := runtime.Stack(buf, true)
+		if n < len(buf) {
+			buf = buf[:n]
+			break
+		}
+		buf = make([]byte, 2*len(buf))
+	}
+	head := fmt.Sprintf("goroutine %d [", gid)
+	for _, blk := range strings.Split(string(buf), "\n\n") {
+		if !strings.HasPrefix(blk, head) {
+			continue
+		}
+		status := blk[len(head):]
+		if i := strings.IndexByte(status, ']'); i >= 0 {
+			status = status[:i]
+		}
+		return strings.HasPrefix(status, "select") && strings.Contains(blk, "(*committedReader).waitForHW")
+	}
+	return false
+}
+
+// sleepsUnregistered: the reader's goroutine sleeps in waitForHW on a channel
+// that is not in hwWaiters (and carries no value: it would not sleep).  Nobody
+// can wake it except the cancellation of its context.  The wakers send on the
+// channel first (the goroutine becomes runnable) and delete the entry second,
+// and nobody but the stepped goroutine runs while the driver waits, so on
+// code that registers every sleeper this is never observed; it must be
+// observed twice in a row all the same.
+func (c *v3Ctl) sleepsUnregistered(p *v3Proc) bool {
+	if p.rdr == nil || c.registered(p) || !v3Asleep(p.gid) || c.registered(p) || len(p.ev) != 0 {
+		p.lostSeen = 0
+		return false
+	}
+	p.lostSeen++
+	return p.lostSeen >= 2
+}
+
 // waitStop waits until the goroutine of p stops: parked at a gate, registered
-// as HW waiter, or returned for good.
+// as HW waiter (or asleep in waitForHW without being registered: "blocked"
+// as well, the projection of hwWaiters tells the two apart), or returned for
+// good.
 func (c *v3Ctl) waitStop(p *v3Proc) {
 	deadline := time.Now().Add(v3Deadline)
-	for {
+	p.lostSeen = 0
+	for tick := 1; ; tick++ {
 		select {
 		case ev := <-p.ev:
 			if ev.gate != "" {
@@ -207,6 +260,10 @@ func (c *v3Ctl) waitStop(p *v3Proc) {
 			return
 		case <-time.After(200 * time.Microsecond):
 			if p.rdr != nil && c.registered(p) {
+				p.at = "blocked"
+				return
+			}
+			if tick%8 == 0 && c.sleepsUnregistered(p) {
 				p.at = "blocked"
 				return
 			}
@@ -541,7 +598,8 @@ func (c *v3Ctl) quiesce() {
 		if p == nil || p.ended != "" || (p.rdr == nil && !p.busy) {
 			continue
 		}
-		for stopped := false; !stopped; {
+		p.lostSeen = 0
+		for stopped, tick := false, 1; !stopped; tick++ {
 			select {
 			case ev := <-p.ev:
 				switch {
@@ -567,6 +625,9 @@ func (c *v3Ctl) quiesce() {
 				}
 			case <-time.After(500 * time.Microsecond):
 				if p.rdr != nil && c.registered(p) && len(p.ev) == 0 {
+					p.at = "blocked"
+					stopped = true
+				} else if tick%8 == 0 && c.sleepsUnregistered(p) {
 					p.at = "blocked"
 					stopped = true
 				} else if time.Now().After(deadline) {
@@ -633,6 +694,18 @@ func (c *v3Ctl) exec(step map[string]interface{}, args map[string]interface{}) s
 			return ev
 		})
 		c.waitStop(p)
+	case "AppSet":
+		// AppendMessageSet (follower / reconciliation path, allowed on a
+		// read-only log), executed by the driver itself: one step
+		if c.procs["app"].busy || c.procs["rol"].busy {
+			return "Skip"
+		}
+		ms, _, err := newMessageSetFromProto(c.l.NewestOffset()+1, 0, []*Message{c.msg()}, false)
+		if err != nil {
+			c.t.Fatalf("message set: %v", err)
+		}
+		_, err = c.l.AppendMessageSet(ms)
+		args["err"] = v3ErrClass(err)
 	case "RolBegin":
 		p := c.procs["rol"]
 		if p.busy {
@@ -761,6 +834,17 @@ func TestVerifReaderGated(t *testing.T) {
 			tw.Emit(v3Line{T: b.ID, A: "Timeout", Args: map[string]interface{}{}, St: c.project(), Note: c.fail})
 		} else {
 			tw.Emit(v3Line{T: b.ID, A: "Quiet", Args: map[string]interface{}{}, St: c.project()})
+			// epilogue of every behaviour: everything appended is committed; at
+			// the next quiescence every reader has been handed the whole log
+			// from its position on (or was told that the read-only log ended)
+			h := c.l.NewestOffset()
+			c.l.SetHighWatermark(h)
+			c.quiesce()
+			if c.fail != "" {
+				tw.Emit(v3Line{T: b.ID, A: "Timeout", Args: map[string]interface{}{}, St: c.project(), Note: c.fail})
+			} else {
+				tw.Emit(v3Line{T: b.ID, A: "Commit", Args: map[string]interface{}{"h": h}, St: c.project()})
+			}
 		}
 		v3Current.Store(nil)
 		c.close(dir)
